@@ -148,3 +148,84 @@ class AreaRows(Harness):
 
 
 HARNESSES = [AreaRows()]
+
+
+class GeneCoordinates(Harness):
+    pid, name = "C19", "gene_coordinates"
+    functions = ["antismash.outputs.html.js:convert_cds_features"]
+    bound = ("a region made of one subregion (simple, origin-spanning or the whole circular record) containing one gene (simple or "
+             "origin-spanning, either strand); symbolic coordinates and record length")
+    outside = "gene descriptions / sequences (get_description stubbed, sequence content empty); several genes (handled one by one by the code)"
+    stubs = ["js.get_description replaced by an empty string; record sequence carries only a length"]
+
+    def variants(self, tier):
+        out = []
+        for rshape in ("s", "o", "whole"):
+            for gshape in ("s", "o"):
+                if gshape == "o" and rshape == "s":
+                    continue
+                for strand in (1, -1):
+                    out.append({"region": rshape, "gene": gshape, "strand": strand})
+        return out
+
+    def vars(self, var):
+        d = {"n": "int", "x": "int"}
+        if var["region"] != "whole":
+            d.update(shape_vars("r", var["region"]))
+        d.update(shape_vars("g", var["gene"]))
+        return d
+
+    def region_parts(self, var, v):
+        if var["region"] == "whole":
+            return [(0, v["n"])]
+        return model_parts("r", var["region"], v)
+
+    def pre(self, var, v):
+        n = v["n"]
+        c = [0 <= v["x"], v["x"] < n, n >= 2, shape_pre("g", var["gene"], v, n)]
+        if var["region"] != "whole":
+            c.append(shape_pre("r", var["region"], v, n))
+        c.append(contains_parts(self.region_parts(var, v), model_parts("g", var["gene"], v)))
+        return L.And(c)
+
+    def run(self, var, v):
+        from antismash.common.secmet.locations import FeatureLocation
+        from antismash.common.secmet.test.helpers import DummyCDS
+        from antismash.outputs.html import js
+        n = v["n"]
+        rec = mkrecord(n, var["region"] != "s")
+        gene = DummyCDS(location=build("g", var["gene"], v, var["strand"]), locus_tag="gene", translation="A")
+        rec.add_cds_feature(gene)
+        loc = FeatureLocation(0, n, 1) if var["region"] == "whole" else build("r", var["region"], v)
+        rec.add_subregion(SubRegion(loc, tool="test", label="sub"))
+        rec.create_regions()
+        region = rec.get_regions()[0]
+        orig = js.get_description
+        js.get_description = lambda *a, **k: ""
+        try:
+            orfs = js.convert_cds_features(rec, region.cds_children, None, {}, region)
+        finally:
+            js.get_description = orig
+        return {"crosses": region.crosses_origin(), "start": cn(region.start), "end": cn(region.end),
+                "orfs": [{"start": cn(o["start"]), "end": cn(o["end"]), "strand": o["strand"], "group": "group" in o} for o in orfs]}
+
+    def post(self, var, v, out):
+        if is_raised(out):
+            return [("no_raise", False)]
+        n, x = v["n"], v["x"]
+        crosses = out["crosses"]
+        rstart = out["start"]
+        rend = (out["end"] + n) if crosses else out["end"]
+        mapped = L.If(L.And(crosses, x < rstart), x + n, x) if crosses else x
+        gene = model_parts("g", var["gene"], v)
+        orfs = out["orfs"]
+        cl = [("gene_drawn_once_or_as_two_linked_halves", len(orfs) in (1, 2) and (len(orfs) == 1 or all(o["group"] for o in orfs)))]
+        for o in orfs:
+            # start is 1-based inclusive, end 0-based exclusive
+            cl.append(("gene_within_announced_range", L.And(rstart <= o["start"] - 1, o["start"] - 1 < o["end"], o["end"] <= rend)))
+        cl.append(("drawn_gene_is_the_gene_in_drawing_order",
+                   L.Iff(in_parts(x, gene), L.Or([L.And(o["start"] - 1 <= mapped, mapped < o["end"]) for o in orfs]))))
+        return cl
+
+
+HARNESSES = [AreaRows(), GeneCoordinates()]
